@@ -42,6 +42,9 @@ def series(pair, units):
     return TimeSeries([2018.0, 2020.0], [float(fr(pair[0])), float(fr(pair[1]))], units=units)
 
 
+_FORM = [0]
+
+
 def observe(at, c):
     import sciris as sc
     from atomica.utils import TimeSeries
@@ -56,8 +59,14 @@ def observe(at, c):
         prog.saturation = TimeSeries(assumption=float(fr(c["sat"])), units="N.A.")
     ow = c["ow"]
 
-    def form(pair, units):  # equal values: the documented scalar form (assigned to the start year), otherwise a two-point TimeSeries
-        return float(fr(pair[0])) if pair[0] == pair[1] else series(pair, units)
+    def form(pair, units):  # equal values: the documented scalar form (assigned to the start year) or a constant series, otherwise a two-point TimeSeries
+        if pair[0] != pair[1]:
+            return series(pair, units)
+        v = fr(pair[0])
+        _FORM[0] += 1
+        if _FORM[0] % 3 == 1:  # a TimeSeries holding only an assumption, written the way a user types it (100 rather than 100.0)
+            return TimeSeries(assumption=int(v) if v.denominator == 1 else float(v), units=units)
+        return float(v)
 
     ins = at.ProgramInstructions(start_year=2016.0,
                                  alloc={"P1": form(ow["spend"], "$/year")} if ow["spend"] != NONEP else None,
